@@ -5,7 +5,7 @@ use swiftness_air::{
         config::Config as TraceConfigVerifier, Decommitment as TraceDecommitmentVerifier,
         UnsentCommitment as TraceUnsentCommitmentVerifier, Witness as TraceWitnessVerifier,
     },
-    types::{AddrValue, Page, SegmentInfo as SegmentInfoVerifier},
+    types::{AddrValue, ContinuousPageHeader, Page, SegmentInfo as SegmentInfoVerifier},
 };
 use swiftness_commitment::{
     table::{
@@ -134,7 +134,16 @@ impl TransformTo<PublicInputVerifier> for stark_proof::PublicInput {
             padding_addr: self.padding_addr.into(),
             padding_value: self.padding_value.into(),
             main_page: Page(self.main_page.into_iter().map(|x| x.transform_to()).collect()),
-            continuous_page_headers: vec![],
+            continuous_page_headers: self
+                .continuous_page_headers
+                .chunks_exact(4)
+                .map(|header| ContinuousPageHeader {
+                    start_address: header[0].clone().into(),
+                    size: header[1].clone().into(),
+                    hash: header[2].clone().into(),
+                    prod: header[3].clone().into(),
+                })
+                .collect(),
         }
     }
 }
@@ -187,7 +196,10 @@ impl TransformTo<FriUnsentCommitmentVerifier> for stark_proof::FriUnsentCommitme
 
 impl TransformTo<PowUnsentCommitmentVerifier> for stark_proof::ProofOfWorkUnsentCommitment {
     fn transform_to(self) -> PowUnsentCommitmentVerifier {
-        PowUnsentCommitmentVerifier { nonce: self.nonce.to_u64_digits()[0] }
+        // The parser guarantees that the nonce fits in 64 bits; zero has no digits.
+        PowUnsentCommitmentVerifier {
+            nonce: self.nonce.to_u64_digits().first().copied().unwrap_or_default(),
+        }
     }
 }
 
